@@ -123,7 +123,9 @@ Proof.
     now rewrite Z.compare_refl.
 Qed.
 
-Lemma py_centipoints_int z : py_centipoints_attr (PInt z) = Ok (PInt (z / 127)).
+Lemma py_centipoints_int z : Length__centipoints (PInt z) = Ok (PInt (z / 127)).
+Proof. reflexivity. Qed.
+Lemma py_floordiv127_int z : py_floordiv (PInt z) (PInt 127) = Ok (PInt (z / 127)).
 Proof. reflexivity. Qed.
 Lemma py_Centipoints_int k : py_Centipoints (PInt k) = Ok (PInt (k * 127)).
 Proof. reflexivity. Qed.
@@ -141,7 +143,7 @@ Theorem RT_TextSpacingPoint : forall v s, ST_TextSpacingPoint__to_xml v = Ok (PS
     /\ 0 <= z - z / 127 * 127 < 127.
 Proof.
   intros v s; destruct v as [z|b|f|s0| |l|n].
-  - unfold_gen; isinst; intros H; crunch. rewrite py_centipoints_int in *. crunch. int_ranges.
+  - unfold_gen; isinst; intros H; crunch. rewrite ?py_centipoints_int, ?py_floordiv127_int in *. crunch. int_ranges.
     exists z. split; [reflexivity|]. split; [lia|]. split; [|apply quantum127].
     rewrite py_int_lit by (apply div127_small; lia). cbn [bind]. apply py_Centipoints_int.
   - destruct b; intros H; vm_compute in H; first [discriminate H | injection H as <-];
